@@ -449,8 +449,39 @@ def run_check(plugin, pid, tier, seed):
         print(v)
 
     # evidence
+    # 8. source drift: the code under the hand-written models differs from the tree they were validated against
+    #    (corpus/source_digests.json).  That is no alarm; it buys more effort before 'everything explored held' is reported:
+    #    the same check is repeated with further seeds of the generated streams in child processes.  Only a concrete failing
+    #    input or a broken obligation found there is reported (their VIOLATION lines and replay files are passed on).
+    drift_keys, drift_base, escalated = [], None, []
+    try:
+        from .drift import drift as _drift
+        drift_keys, drift_base = _drift(REPO, VERIF)
+    except Exception:
+        ctx.notes.append('source drift could not be computed: ' + traceback.format_exc()[-600:])
+    if drift_keys and not violations and infra_error is None and not os.environ.get('VERIF_CHILD') \
+            and not os.environ.get('VERIF_NO_ESCALATE'):
+        extra = [seed + 101, seed + 202] if tier == 'quick' else [seed + 101]
+        procs = [(s_, subprocess.Popen([str(VERIF / 'check'), pid, '--tier', tier], cwd=VERIF, text=True,
+                                       stdout=subprocess.PIPE, stderr=subprocess.STDOUT,
+                                       env=dict(os.environ, VERIF_SEED=str(s_), VERIF_CHILD='1'))) for s_ in extra]
+        for s_, pr in procs:
+            try:
+                o_, _ = pr.communicate(timeout=5400)
+            except subprocess.TimeoutExpired:
+                pr.kill()
+                o_ = 'timeout'
+            vl = [l for l in o_.splitlines() if l.startswith('VIOLATION')]
+            escalated.append({'seed': s_, 'rc': pr.returncode, 'violations': vl, 'last': (o_.strip().splitlines() or [''])[-1][:300]})
+            if pr.returncode == 1 and vl:
+                for l in vl:
+                    print(l)
+                violations.extend(vl)
+
     cov = ctx.cov
     cov['distinct_nontrivial'] = len(ctx._distinct)
+    cov['source_drift'] = {'baseline_repo_head': drift_base, 'changed_units': drift_keys[:60], 'n_changed': len(drift_keys),
+                           'escalation_runs': escalated}
     level = plugin.LEVEL
     cov.update({
         'obligations': obligations, 'discharged': discharged,
@@ -473,7 +504,10 @@ def run_check(plugin, pid, tier, seed):
           'assumptions': list(getattr(plugin, 'ASSUMPTIONS', [])),
           'wall_s': round(ctx.elapsed(), 2), 'violations': len(violations)}
     EVID.mkdir(exist_ok=True)
-    (EVID / f'{pid}.json').write_text(json.dumps(ev, indent=1, default=str) + '\n')
+    if os.environ.get('VERIF_CHILD'):   # an escalation run of another check process: never touch the registered evidence file
+        (REPLAYS / f'evidence_{pid}_{tier}_{seed}.json').write_text(json.dumps(ev, indent=1, default=str) + '\n')
+    else:
+        (EVID / f'{pid}.json').write_text(json.dumps(ev, indent=1, default=str) + '\n')
     if infra_error:
         print('INFRA-ERROR:', infra_error, file=sys.stderr)
         return 2
